@@ -739,6 +739,9 @@ func init() {
 						c06Program(c, fsType, ti, tree, progs, c.Pick(2, 3), c.Pick(400, 4000), c.Pick(20, 100), st, r)
 					}
 				}
+				// the dedicated programs of C06 (several walks against entries that come and go, directory moves whose locked
+				// directories form a cycle): the same programs, judged here on "every worker returns"
+				c06Dedicated(c, fsType, trees, &idx, st, r)
 				for k := 0; k < c.Pick(200, 4000); k++ {
 					idx++
 					if idx%c.NShards != c.Shard {
